@@ -80,6 +80,7 @@ type MapD struct {
 	IndexDynamic     bool     `json:"index_dynamic"`
 	DocValuesDynamic bool     `json:"docvalues_dynamic"`
 	Custom           []string `json:"custom,omitempty"` // names from the component pool
+	Comps            []CompD  `json:"comps,omitempty"`  // generated components, added after the pool's in list order
 }
 
 type In struct {
@@ -214,6 +215,11 @@ func build(md *MapD) (*mapping.IndexMappingImpl, error) {
 		}
 		if err != nil {
 			return nil, fmt.Errorf("custom %s: %v", n, err)
+		}
+	}
+	for _, c := range md.Comps {
+		if err := addComp(m, c); err != nil {
+			return nil, fmt.Errorf("custom %s %s: %v", c.Kind, c.Name, err)
 		}
 	}
 	m.TypeField = md.TypeField
@@ -423,6 +429,17 @@ func initVocab() {
 		"l2_norm", "dot_product", "cosine", "recall", "latency", "memory-efficient", "sub.a", "x.y", "a_kw",
 		index.BM25Scoring, index.TFIDFScoring)
 	add("", "t1", "t2", "x", "#", "the", "foo", "bar", "[a-zA-Z#]+", "[0-9]+")
+	// the generated custom analysis sections (comps.go)
+	for _, k := range compKinds {
+		add(builtinNames[k]...)
+		add(freshPrefix[k]+"1", freshPrefix[k]+"2")
+	}
+	add(mapWords...)
+	add("articles_token_map", "keywords_token_map", "dict_token_map", "min_word_size", "min_subword_size", "max_subword_size",
+		"only_longest_match", "form", "nfc", "nfd", "nfkc", "nfkd", "output_original", "separator", "filler", "shingle", "elision",
+		"keyword_marker", "dict_compound", "normalize_unicode", "reverse", "unique", "apostrophe", "isostyle", "percentstyle",
+		"an0", "an1", "_", " ", "'", "2006/01/02", "02-01-2006 15:04", "2006-01-02 15:04:05", "yyyy/MM/dd", "dd-MM-yyyy HH:mm",
+		"%Y/%m/%d", "%d-%m-%Y %H:%M", "[a-z]+://\\S+")
 	add(fieldTypes...)
 	add(builtinAnalyzers...)
 	add(propNames...)
@@ -664,7 +681,11 @@ func exec(in In) vh.Result {
 	if in.Kind == "default" {
 		return execDefault(in)
 	}
-	return execRound(in)
+	res := execRound(in)
+	if in.M != nil && tokenizerShadowOrder(in.M) {
+		res.Hist = append(res.Hist, "shape:custom-tokenizer-shadows-builtin-and-is-wrapped")
+	}
+	return res
 }
 
 func direct(kind, f string, a ...any) vh.Result {
@@ -722,40 +743,89 @@ func execRound(in In) (res vh.Result) {
 		same = bytes.Equal(b1, b2)
 	}
 
-	// MapDocument on the original and the reparsed mapping (implementation against itself)
+	// BEHAVIOUR of the original mapping object, of its JSON round trip and (below) of the mapping
+	// of the reopened index, implementation against itself: the analysers / date parsers /
+	// synonym sources by name (probe) and MapDocument of every document
+	var docs []interface{}
+	raws := in.Docs
+	if in.StdDocs {
+		raws = append(sweepDocs(), raws...)
+	}
+	for _, raw := range raws {
+		var v interface{}
+		if json.Unmarshal(raw, &v) == nil {
+			docs = append(docs, v)
+		}
+	}
+	for i := 0; i < in.StructDoc; i++ {
+		docs = append(docs, structDocOf(i))
+	}
+	observe := func(mm mapping.IndexMapping, what string) (behaviour, *vh.Direct) {
+		var b behaviour
+		d := vh.Guard(20*time.Second, "probe/MapDocument on "+what, func() {
+			b.probe = probe(mm, in.M)
+			for _, v := range docs {
+				dd := document.NewDocument("doc")
+				err := mm.MapDocument(dd, v)
+				b.errs = append(b.errs, err)
+				b.docs = append(b.docs, dumpDoc(dd))
+			}
+		})
+		return b, d
+	}
+	differs := func(b0, b behaviour, what string) *vh.Result {
+		if diff := firstDiff(b0.probe, b.probe); diff != "" {
+			r := direct("analysis-differs", "%s analyses text differently from the original mapping: %s; mapping JSON %s", what, diff, b1)
+			return &r
+		}
+		for di := range b0.docs {
+			if (b0.errs[di] == nil) != (b.errs[di] == nil) {
+				r := direct("mapdoc-differs", "document %d: MapDocument error %v on the original mapping, %v on %s; mapping JSON %s", di, b0.errs[di], b.errs[di], what, b1)
+				return &r
+			}
+			if diff := firstDiff(b0.docs[di], b.docs[di]); diff != "" {
+				r := direct("mapdoc-differs", "document %d maps differently on %s: %s; mapping JSON %s", di, what, diff, b1)
+				return &r
+			}
+		}
+		return nil
+	}
+	var b0 behaviour
 	if uerr == nil && m2 != nil {
-		var docs []interface{}
-		raws := in.Docs
-		if in.StdDocs {
-			raws = append(sweepDocs(), raws...)
+		var d *vh.Direct
+		if b0, d = observe(m, "the original mapping"); d != nil {
+			return vh.Result{Direct: d}
 		}
-		for _, raw := range raws {
-			var v interface{}
-			if json.Unmarshal(raw, &v) == nil {
-				docs = append(docs, v)
-			}
+		b2, d := observe(m2, "the reparsed mapping")
+		if d != nil {
+			return vh.Result{Direct: d}
 		}
-		for i := 0; i < in.StructDoc; i++ {
-			docs = append(docs, structDocOf(i))
+		if r := differs(b0, b2, "the mapping after its JSON round trip"); r != nil {
+			return *r
 		}
-		for di, v := range docs {
-			var s1, s2 []string
-			var e1, e2 error
-			if d := vh.Guard(20*time.Second, "MapDocument", func() {
-				d1, d2 := document.NewDocument("doc"), document.NewDocument("doc")
-				e1 = m.MapDocument(d1, v)
-				e2 = m2.MapDocument(d2, v)
-				s1, s2 = dumpDoc(d1), dumpDoc(d2)
-			}); d != nil {
-				return vh.Result{Direct: d}
-			}
-			if (e1 == nil) != (e2 == nil) {
-				return direct("mapdoc-differs", "document %d: MapDocument error %v on the original mapping, %v on the reparsed one; mapping JSON %s", di, e1, e2, b1)
-			}
-			if diff := firstDiff(s1, s2); diff != "" {
-				return direct("mapdoc-differs", "document %d maps differently after the mapping went through JSON: %s; mapping JSON %s", di, diff, b1)
-			}
+		for _, s1 := range b0.docs {
 			hist = append(hist, fmt.Sprintf("doc-fields:%s", bucket(len(s1))))
+		}
+		// decoding registers the custom components by ranging over Go maps: the outcome must not
+		// depend on the iteration order
+		if len(in.M.Comps)+len(in.M.Custom) > 0 {
+			for k := 0; k < 2; k++ {
+				var mk *mapping.IndexMappingImpl
+				var kerr error
+				if d := vh.Guard(20*time.Second, "json.Unmarshal(mapping JSON) again", func() { kerr = json.Unmarshal(b1, &mk) }); d != nil {
+					return vh.Result{Direct: d}
+				}
+				if kerr != nil || mk == nil {
+					return direct("reparse-unstable", "json.Unmarshal of the same mapping JSON succeeded once and then failed: %v; mapping JSON %s", kerr, b1)
+				}
+				var pk []string
+				if d := vh.Guard(20*time.Second, "probe on the mapping reparsed again", func() { pk = probe(mk, in.M) }); d != nil {
+					return vh.Result{Direct: d}
+				}
+				if diff := firstDiff(b0.probe, pk); diff != "" {
+					return direct("analysis-differs", "the mapping after another JSON round trip analyses text differently from the original mapping: %s; mapping JSON %s", diff, b1)
+				}
+			}
 		}
 	}
 
@@ -768,6 +838,9 @@ func execRound(in In) (res vh.Result) {
 		defer os.RemoveAll(dir)
 		var jr []byte
 		var rerr error
+		var b3 behaviour
+		var reopenDirect *vh.Direct
+		observed3 := false
 		if d := vh.Guard(60*time.Second, "index create/close/open", func() {
 			p := filepath.Join(dir, "idx")
 			idx, err := bleve.NewUsing(p, m, scorch.Name, scorch.Name, nil)
@@ -795,6 +868,10 @@ func execRound(in In) (res vh.Result) {
 				return
 			}
 			jr, rerr = json.Marshal(idx2.Mapping())
+			if uerr == nil && m2 != nil {
+				b3, reopenDirect = observe(idx2.Mapping(), "the mapping of the reopened index")
+				observed3 = reopenDirect == nil
+			}
 			if len(rdocs) > 1 {
 				var v interface{}
 				if json.Unmarshal(rdocs[1], &v) == nil {
@@ -804,6 +881,15 @@ func execRound(in In) (res vh.Result) {
 			_ = idx2.Close()
 		}); d != nil {
 			return vh.Result{Direct: d}
+		}
+		if reopenDirect != nil {
+			return vh.Result{Direct: reopenDirect}
+		}
+		if observed3 {
+			if r := differs(b0, b3, "the mapping of the index after create/close/open"); r != nil {
+				return *r
+			}
+			hist = append(hist, "reopen-behaviour-compared")
 		}
 		if rerr != nil {
 			reopened = cf.App("WJSome", cf.App("WStr", wstr("reopen failed: "+rerr.Error())))
@@ -819,6 +905,13 @@ func execRound(in In) (res vh.Result) {
 	defaultJSON, _ := json.Marshal(bleve.NewIndexMapping())
 	hist = append(hist, "json-bytes:"+bucket(len(b1)))
 	return vh.Result{Term: term, Nontrivial: !bytes.Equal(b1, defaultJSON), Key: string(b1), Hist: hist}
+}
+
+// what a mapping does: probe lines, and per document the MapDocument error and field dump
+type behaviour struct {
+	probe []string
+	errs  []error
+	docs  [][]string
 }
 
 func bucket(n int) string {
@@ -924,7 +1017,7 @@ func execDecode(in In) vh.Result {
 // ---------------------------------------------------------------- generation
 
 var fieldTypes = []string{"text", "number", "boolean", "datetime", "geopoint", "geoshape", "IP"}
-var builtinAnalyzers = []string{"standard", "keyword", "simple", "web", "en"}
+var builtinAnalyzers = []string{"standard", "keyword", "simple", "web", "en", "fr", "fa"}
 var propNames = []string{"a", "b", "c", "when", "num", "loc", "sub", "tags"}
 
 func baseMap() *MapD {
@@ -1126,24 +1219,34 @@ func sweeps() []sweepCase {
 	return out
 }
 
-func rndField(r *vrand.R, custom *[]string) FieldD {
+// genCtx: what the random mapping under construction can refer to
+type genCtx struct {
+	custom     []string // pool names referred to so far
+	an, dt, sy []string // generated analysers / date parsers / synonym sources (MapD.Comps)
+}
+
+func rndField(r *vrand.R, gc *genCtx) FieldD {
 	f := FieldD{Type: vrand.Pick(r, fieldTypes)}
 	f.Store, f.Index, f.TV, f.InAll, f.DocValues, f.SkipFN = r.Bool(), r.Bool(), r.Bool(), r.Bool(), r.Bool(), r.Bool()
 	if r.Chance(1, 3) {
 		f.Name = vrand.Pick(r, []string{"alt", "other", "a", "x.y"})
 	}
-	if f.Type == "text" && r.Bool() {
+	if f.Type == "text" && len(gc.an) > 0 && r.Bool() {
+		f.Analyzer = vrand.Pick(r, gc.an)
+	} else if f.Type == "text" && r.Bool() {
 		if r.Chance(1, 3) {
 			f.Analyzer = vrand.Pick(r, []string{"an_words", "an_grams", "an_url"})
-			*custom = append(*custom, f.Analyzer)
+			gc.custom = append(gc.custom, f.Analyzer)
 		} else {
 			f.Analyzer = vrand.Pick(r, builtinAnalyzers)
 		}
 	}
-	if f.Type == "datetime" && r.Bool() {
+	if f.Type == "datetime" && len(gc.dt) > 0 && r.Bool() {
+		f.DateFormat = vrand.Pick(r, gc.dt)
+	} else if f.Type == "datetime" && r.Bool() {
 		if r.Bool() {
 			f.DateFormat = vrand.Pick(r, []string{"dt_slash", "dt_sane"})
-			*custom = append(*custom, f.DateFormat)
+			gc.custom = append(gc.custom, f.DateFormat)
 		} else {
 			f.DateFormat = vrand.Pick(r, []string{"dateTimeOptional", "unix_sec", "unix_milli"})
 		}
@@ -1160,19 +1263,23 @@ func rndField(r *vrand.R, custom *[]string) FieldD {
 	if r.Chance(1, 10) {
 		f.GPU = true
 	}
-	if r.Chance(1, 8) {
+	if len(gc.sy) > 0 && r.Chance(1, 3) {
+		f.Synonym = vrand.Pick(r, gc.sy)
+	} else if r.Chance(1, 8) {
 		f.Synonym = vrand.Pick(r, []string{"syn_a", "syn_b"})
-		*custom = append(*custom, f.Synonym)
+		gc.custom = append(gc.custom, f.Synonym)
 	}
 	return f
 }
 
-func rndDoc(r *vrand.R, depth int, custom *[]string) *DocD {
+func rndDoc(r *vrand.R, depth int, gc *genCtx) *DocD {
 	d := &DocD{Enabled: !r.Chance(1, 6), Dynamic: r.Bool()}
-	if r.Chance(1, 3) {
+	if len(gc.an) > 0 && r.Chance(1, 4) {
+		d.Analyzer = vrand.Pick(r, gc.an)
+	} else if r.Chance(1, 3) {
 		if r.Chance(1, 3) {
 			d.Analyzer = vrand.Pick(r, []string{"an_words", "an_grams"})
-			*custom = append(*custom, d.Analyzer)
+			gc.custom = append(gc.custom, d.Analyzer)
 		} else {
 			d.Analyzer = vrand.Pick(r, builtinAnalyzers)
 		}
@@ -1182,7 +1289,7 @@ func rndDoc(r *vrand.R, depth int, custom *[]string) *DocD {
 	}
 	if r.Chance(1, 10) {
 		d.Synonym = vrand.Pick(r, []string{"syn_a", "syn_b"})
-		*custom = append(*custom, d.Synonym)
+		gc.custom = append(gc.custom, d.Synonym)
 	}
 	if r.Chance(1, 10) {
 		d.StructTagKey = vrand.Pick(r, []string{"bleve", "json", "x"})
@@ -1196,30 +1303,40 @@ func rndDoc(r *vrand.R, depth int, custom *[]string) *DocD {
 	for _, name := range propNames {
 		switch k := r.Intn(10); {
 		case k == 0 && depth < 3:
-			d.Props = append(d.Props, PropD{name, rndDoc(r, depth+1, custom)})
+			d.Props = append(d.Props, PropD{name, rndDoc(r, depth+1, gc)})
 		case k == 1 || k == 2:
 			sub := &DocD{Enabled: !r.Chance(1, 10), Dynamic: r.Bool()}
 			for i := 1 + r.Intn(5)/3; i > 0; i-- {
-				sub.Fields = append(sub.Fields, rndField(r, custom))
+				sub.Fields = append(sub.Fields, rndField(r, gc))
 			}
 			d.Props = append(d.Props, PropD{name, sub})
 		}
 	}
 	if r.Chance(1, 5) {
 		// fields directly on a document mapping (used when the value at this path is a scalar)
-		d.Fields = append(d.Fields, rndField(r, custom))
+		d.Fields = append(d.Fields, rndField(r, gc))
 	}
 	return d
 }
 
 func rndMap(r *vrand.R) *MapD {
 	m := baseMap()
-	var custom []string
-	m.Default = rndDoc(r, 0, &custom)
+	gc := &genCtx{}
+	// a generated custom analysis section: each kind present or absent independently, names fresh
+	// or shadowing built-in ones
+	if r.Bool() {
+		var present [7]bool
+		for k := range present {
+			present[k] = r.Chance(2, 5)
+		}
+		m.Comps = genComps(r, present, r.Intn(3), 2)
+		gc.an, gc.dt, gc.sy = compNames(m.Comps, "analyzer"), compNames(m.Comps, "date_time_parser"), compNames(m.Comps, "synonym_source")
+	}
+	m.Default = rndDoc(r, 0, gc)
 	m.Default.Nested = false
 	for _, tn := range []string{"t1", "t2", "_default", "weird type/é"} {
 		if r.Chance(1, 4) {
-			d := rndDoc(r, 0, &custom)
+			d := rndDoc(r, 0, gc)
 			d.Nested = false
 			m.Types = append(m.Types, PropD{tn, d})
 		}
@@ -1229,29 +1346,34 @@ func rndMap(r *vrand.R) *MapD {
 	}
 	m.TypeField = vrand.Pick(r, []string{"_type", "kind", "sub.a", ""})
 	m.DefaultType = vrand.Pick(r, []string{"_default", "t1", "t2", ""})
-	if r.Chance(1, 4) {
+	if len(gc.an) > 0 && r.Chance(1, 3) {
+		m.DefaultAnalyzer = vrand.Pick(r, gc.an)
+	} else if r.Chance(1, 4) {
 		m.DefaultAnalyzer = vrand.Pick(r, []string{"an_words", "an_grams", "an_url"})
-		custom = append(custom, m.DefaultAnalyzer)
+		gc.custom = append(gc.custom, m.DefaultAnalyzer)
 	} else {
 		m.DefaultAnalyzer = vrand.Pick(r, builtinAnalyzers)
 	}
-	if r.Chance(1, 4) {
+	if len(gc.dt) > 0 && r.Chance(1, 3) {
+		m.DefaultDTP = vrand.Pick(r, gc.dt)
+	} else if r.Chance(1, 4) {
 		m.DefaultDTP = vrand.Pick(r, []string{"dt_slash", "dt_sane"})
-		custom = append(custom, m.DefaultDTP)
+		gc.custom = append(gc.custom, m.DefaultDTP)
 	} else if r.Chance(1, 4) {
 		m.DefaultDTP = vrand.Pick(r, []string{"unix_sec", "unix_nano"})
 	}
 	if r.Chance(1, 8) {
 		m.DefaultSynonym = "syn_a"
-		custom = append(custom, "syn_a")
+		gc.custom = append(gc.custom, "syn_a")
 	}
 	m.ScoringModel = vrand.Pick(r, []string{"", "", index.BM25Scoring, index.TFIDFScoring})
 	m.DefaultField = vrand.Pick(r, []string{"_all", "_all", "a", ""})
 	m.StoreDynamic, m.IndexDynamic, m.DocValuesDynamic = r.Bool(), r.Bool(), r.Bool()
 	// unreferenced components too
 	for i := r.Intn(4); i > 0; i-- {
-		custom = append(custom, vrand.Pick(r, poolNames))
+		gc.custom = append(gc.custom, vrand.Pick(r, poolNames))
 	}
+	custom := gc.custom
 	sort.Strings(custom)
 	for i, c := range custom {
 		if i == 0 || custom[i-1] != c {
@@ -1276,7 +1398,7 @@ func rndScalar(r *vrand.R) interface{} {
 	case 5:
 		return vrand.Pick(r, []string{"1.5,2.5", "drm3btev3e86"})
 	default:
-		return vrand.Pick(r, []string{"hello world", "The quick brown FOO jumped over the bar", "x", "", "<b>Bold</b> text 123 here http://a.b/c?d=1", "naïve café — déjà vu", "t1"})
+		return vrand.Pick(r, []string{"hello world", "The quick brown FOO jumped over the bar", richText, probeTexts[1], "x", "", "<b>Bold</b> text 123 here http://a.b/c?d=1", "naïve café — déjà vu", "t1"})
 	}
 }
 
@@ -1508,6 +1630,26 @@ func gen(f vh.Flags, r *vrand.R, emit func(In)) {
 	for _, s := range sweeps() {
 		emit(In{Kind: "round", Label: s.label, M: s.m, StdDocs: true, StructDoc: 2, Reopen: true})
 	}
+	// 1b. custom analysis sections: every subset of the seven kinds of component (each kind present
+	// or absent independently), once with fresh names and once with names that shadow built-in
+	// registry names which the stock analysers resolve through the mapping's cache; the documents
+	// send text with the affected tokens through every such analyser
+	for round := f.N(1, 12); round > 0; round-- {
+		for mask := 0; mask < 128; mask++ {
+			for naming := 0; naming < 2; naming++ {
+				rr := r.Fork()
+				var present [7]bool
+				for k := range present {
+					present[k] = mask&(1<<k) != 0
+				}
+				comps := genComps(rr, present, naming, 2)
+				stock := []int{0, 1, 2, 3, 4, 5}
+				vrand.Shuffle(rr, stock)
+				emit(In{Kind: "round", Label: fmt.Sprintf("comps:%07b-%s", mask, []string{"fresh", "shadow"}[naming]),
+					M: compsMap(comps, stock[:2]), Docs: compsDocs(comps), Reopen: true})
+			}
+		}
+	}
 	// 2. random mapping trees with random documents
 	n := f.N(200, 12000)
 	for i := 0; i < n; i++ {
@@ -1547,7 +1689,13 @@ func main() {
 		Rule: "round: a systematic sweep (every option of FieldMapping / DocumentMapping / IndexMappingImpl set alone to a non-default value, " +
 			"at every place a document mapping can sit) plus random mapping trees (type mappings, sub-mappings to depth 3, all field options, " +
 			"custom analysis components from a pool of 17) built through the bleve API, each with 3-5 documents (JSON values and Go structs) and a scorch " +
-			"index create/close/open; non-trivial = the mapping's JSON differs from NewIndexMapping()'s, distinct by JSON text. " +
+			"index create/close/open; custom analysis sections: every subset of the 7 kinds of component (char filters, tokenizers, token maps, token filters, " +
+			"analyzers, date-time parsers, synonym sources; each kind present or absent independently), once with fresh names and once with names that shadow " +
+			"built-in registry names the stock analysers resolve through the mapping's cache (stop_en, to_lower, unicode, standard, dateTimeOptional, ...), " +
+			"component types and cross-references drawn at random, also mixed into half of the random trees; BEHAVIOUR (every stock and custom analyser / " +
+			"date parser / synonym source by name on fixed texts with the affected tokens, and MapDocument of every document) must be identical on the original " +
+			"object, its JSON round trip (decoded three times: Go map order) and the mapping of the reopened index; " +
+			"non-trivial = the mapping's JSON differs from NewIndexMapping()'s, distinct by JSON text. " +
 			"decode: real mapping JSON with 1-3 mutations (null member, repeated key, unknown key, member order, wrong type, dropped member, " +
 			"explicit zero) decoded as IndexMappingImpl / DocumentMapping / FieldMapping; all non-trivial. " +
 			"default: \"{}\" decoded as each of the three against the constructor's value.",
